@@ -252,7 +252,8 @@ async def _corolevel(sc: Scenario, k: int) -> Any:
 
 
 def real_case(n: int, cuts: List[bool], kinds: List[int], entry: int, o: Optional[int], i: Optional[int],
-              limit: Optional[int], limit_frame: Optional[int], cut_before_probe: bool = False) -> Dict[str, Any]:
+              limit: Optional[int], limit_frame: Optional[int], cut_before_probe: bool = False,
+              lookalike_module: bool = False) -> Dict[str, Any]:
     """entry: 0 extract(StackSlice(outer,inner,limit)); 1 extract_since(outer);
     2 extract_until(inner, limit=int|None); 3 extract_until(inner, limit=frame)."""
 
@@ -298,6 +299,13 @@ def real_case(n: int, cuts: List[bool], kinds: List[int], entry: int, o: Optiona
         return {"ok": ok, "why": f"got {[f.f_code.co_name + ':' + str(idx.get(id(f))) for f in got]} error={st.error!r} "
                 f"expected indices {[idx[id(f)] for f in exp]} of {len(full)}; stackscope frames leaked={len(mine)}"}
 
+    if lookalike_module:
+        # the function that calls into stackscope lives in a USER module whose name merely starts with "stackscope"
+        # (stackscope_user_helpers): its frames are the caller's, not the library's
+        import types as _types
+
+        probe = _types.FunctionType(probe.__code__, dict(probe.__globals__, __name__="stackscope_user_helpers"), "probe",
+                                    probe.__defaults__, probe.__closure__)
     sc = Scenario(n, cuts, kinds, probe)
     sc.cut_before_probe = cut_before_probe
     if n == 0:
@@ -346,12 +354,13 @@ def _b_shard(sh: Dict[str, Any]) -> Dict[str, Any]:
             # frame-valued limits are restricted to frames reachable by f_back
             if any(cuts[lf:min(i, n - 1)]):
                 e.assume(False)
-        res = real_case(n, cuts, kinds, entry, o, i, lim, lf)
+        look = e.flag("caller_in_a_module_named_like_the_library") if entry in (0, 1) else False
+        res = real_case(n, cuts, kinds, entry, o, i, lim, lf, lookalike_module=look)
         reached[0] += 1
         if len(samples) < 1:
             samples.append({"n": n, "cuts": cuts, "kinds": kinds, "entry": entry, "outer": o, "inner": i, "limit": lim, "limit_frame": lf})
         if not res["ok"] and len(cex) < 4:
-            cex.append({"real": True, "n": n, "cuts": cuts, "kinds": kinds, "entry": entry, "outer": o, "inner": i,
+            cex.append({"real": True, "n": n, "cuts": cuts, "kinds": kinds, "entry": entry, "outer": o, "inner": i, "lookalike": look,
                         "limit": lim, "limit_frame": lf, "why": res["why"]})
 
     eng = Engine(max_seconds=sh.get("budget", 240) * (6 if os.environ.get("VERIF_TIER_EFFECTIVE") == "thorough" else 1))
@@ -437,7 +446,7 @@ def replay(case: Dict[str, Any]) -> Dict[str, Any]:
     """Real frames, real greenlets, no stub."""
     if case.get("real"):
         r = real_case(case["n"], case["cuts"], case["kinds"], case["entry"], case["outer"], case["inner"],
-                      case["limit"], case["limit_frame"])
+                      case["limit"], case["limit_frame"], lookalike_module=bool(case.get("lookalike")))
         return {"status": "reproduces" if not r["ok"] else "not-reproduced", "detail": r}
     n, cuts = case["n"], case["cuts"]
     if case["where"] == 2:
